@@ -181,6 +181,9 @@ VALUES = {
 class Color(Enum):
     RED = "red"
     TWO_WORDS = "two words"
+    # values of a string enumeration are compared as they are: runs of blanks, tabs inside the value belong to it
+    WIDE = "two  words"
+    TABBED = "x\ty"
 
 
 class Num(Enum):
